@@ -275,6 +275,18 @@ Definition q_config (now : N) (w : wl) : N * N * N * N * N * bool :=
   (w_num w, w_pal w, w_limit w, w_start w, w_end w, (w_start w <=? now) && (now <? w_end w)).
 Definition q_has (a : addr) (w : wl) : result bool :=
   if valid a then Ok (m_has a (w_mem w)) else Err.
+(* admin.rs query_can_execute: the sender string is validated, then looked up in the
+   stored admin list (the message argument is ignored); query_admin_list *)
+Definition q_can_execute (a : addr) (w : wl) : result bool :=
+  if valid a then Ok (is_admin a w) else Err.
+Definition q_admin_list (w : wl) : list addr * bool := (w_admins w, w_mutable w).
+(* whitelist-flex Member { member }: the stored mint count, an error when not stored; the
+   plain whitelist has no such query *)
+Definition q_member (a : addr) (w : wl) : result N :=
+  match w_kind w with
+  | KFlex => if valid a then match m_get a (w_mem w) with Some c => Ok c | None => Err end else Err
+  | _ => Err
+  end.
 
 (* a history: failed calls leave the state alone (CosmWasm discards their writes) *)
 Definition step (self : addr) (w : wl) (eo : env * op) : wl :=
